@@ -22,8 +22,14 @@ var profC07 = vlib.Profile{
 	Weights: map[string]int{"grow": 40, "refresh": 12, "tofufork": 16, "fork": 6, "badproof": 8, "wrongold": 6, "wrongkey": 4, "mismatch": 4, "smaller": 2},
 }
 
+// isReadFault: the fault hit the read of the previous checkpoint, either at the interface
+// (Write.GetLatest) or at a driver call made while that read was being served. A close of
+// the read statement is not counted: by then the row has been delivered.
 func isReadFault(f string) bool {
-	return strings.HasPrefix(f, vlib.PWriteGet+"#") || f == vlib.DPrepare+"#0" || f == vlib.DQuery+"#0" || f == vlib.DRowsNext+"#0"
+	if strings.HasPrefix(f, vlib.PWriteGet+"#") {
+		return true
+	}
+	return strings.HasSuffix(f, "@"+vlib.PWriteGet) && !strings.HasPrefix(f, vlib.DStmtClose)
 }
 
 // runC07 executes the case under a watchdog: a leaked transaction on the one-connection
@@ -129,7 +135,12 @@ func runC07Inner(c *vlib.HistCase, stats *vlib.Stats, progress chan<- string) (b
 				}
 				// (2) never accepted on the strength of a failed read
 				if readFault {
-					return fmt.Errorf("the read of the previous checkpoint failed (%v) and the update was accepted: a read error was treated as 'no previous checkpoint'", st.Fired)
+					// accepted although the read failed: only legitimate if the implementation
+					// obtained the previous checkpoint some other way (e.g. a retry) and the
+					// request is one the protocol accepts from the state that was stored
+					if ex := vlib.ExpectVerdict(st); !(ex.InClaim && ex.Verdict == vlib.VAccepted) {
+						return fmt.Errorf("the read of the previous checkpoint failed (%v) and the update (%s; from the stored state the protocol says %q) was accepted: a read error was treated as 'no previous checkpoint'", st.Fired, st.Op.Note, ex.Verdict+ex.Why)
+					}
 				}
 				return nil
 			}
